@@ -39,6 +39,11 @@ type hopCase struct {
 	Fields    []rig.Field `json:"fields"` // what the client sends besides Host (request, connect) / what the origin answers with (response)
 	Body      string      `json:"body,omitempty"`
 	Chunked   bool        `json:"chunked,omitempty"`
+	// Whole: judge every name the message, the hop or a rule carries, not only the special names of the side:
+	// a field no rule names must arrive as it does without any rule (cases of the "source" family)
+	Whole bool `json:"whole,omitempty"`
+	// Source: the lists of a Whole case did not come as plain flags but as this case says (replayed through it)
+	Source *sourceCase `json:"source,omitempty"`
 }
 
 func (hc *hopCase) sideRules() []string {
@@ -140,6 +145,8 @@ type judge struct {
 	// fixed: names whose value at the hop is known without the model (Host = the request's authority)
 	fixed map[string][]string
 	impl  string
+	// base (Whole cases): what the model of the code gives for the same message with an EMPTY rule list
+	base map[string][]string
 }
 
 // same compares the values of name k as the hop received them with an expectation. When a rule respelt
@@ -160,8 +167,45 @@ func (j *judge) same(k string, got, want []string) bool {
 
 func (j *judge) run() {
 	gotMap := j.got.FieldMap()
-	for _, k := range j.names {
+	names := j.names
+	if j.hc.Whole && j.base != nil {
+		seen := map[string]bool{}
+		for _, k := range names {
+			seen[k] = true
+		}
+		add := func(k string) {
+			if !seen[k] {
+				seen[k] = true
+				names = append(names, k)
+			}
+		}
+		for k := range gotMap {
+			add(k)
+		}
+		for k := range j.base {
+			add(k)
+		}
+		for _, h := range j.rules {
+			if h.Action != header.RemoveByPrefix {
+				add(strings.ToLower(h.Name))
+			}
+		}
+		sort.Strings(names)
+	}
+	for _, k := range names {
 		if !touches(j.rules, k) {
+			if j.hc.Whole && j.base != nil {
+				want := j.base[k]
+				if f, ok := j.fixed[k]; ok {
+					want = f
+				}
+				if sameVals(gotMap[k], want) {
+					j.ctx.Count("hop/" + j.hc.Side + "/untouched-name-as-without-rules")
+				} else {
+					j.ctx.SpecFail("a field no rule of the list names is forwarded as it is without any rule", "", j.hc, j.impl,
+						fmt.Sprintf("%s: hop received %q, without rules %q (rules %q)", k, gotMap[k], want, j.hc.sideRules()))
+				}
+			}
 			continue
 		}
 		ideal, spelt, afterRename := applySpec(j.rules, k, j.pre(k))
@@ -347,6 +391,13 @@ func hopRequest(ctx *core.Ctx, e *hopEnv, hc *hopCase, id string, rules header.H
 	}
 	j := &judge{ctx: ctx, hc: hc, rules: rules, names: lowerNames(requestNames), got: ex.Req, model: out.Fields, impl: impl,
 		fixed: map[string][]string{"host": {hopOrigin}}}
+	if hc.Whole && out.Fields != nil {
+		bare := cfg
+		bare.Rules = nil
+		if b := reqmodel.Ask(ctx.Model, &bare, &mctx, r); b.Kind == "fwd" {
+			j.base = b.Fields
+		}
+	}
 	j.pre = func(k string) []string {
 		own := func(chain []string, mine string) []string {
 			if c := strings.Join(chain, ", "); c != "" {
@@ -472,24 +523,31 @@ func hopResponse(ctx *core.Ctx, e *hopEnv, hc *hopCase, id string, rules header.
 	for _, f := range hc.Fields {
 		fs = append(fs, core.JoinList([]string{core.HexS(f.Name), core.HexS(f.Value)}))
 	}
-	ans := ctx.Model.MustAsk("RESP", "process", "method="+core.HexS("GET"), "reqminor=1", "reqclose=0", "gzip=0",
-		"rules="+core.HexList(hc.RespRules), "minor=1", "status=200", "reason="+core.HexS("OK"), "fields="+core.JoinList2(fs))
-	f := strings.Fields(ans)
-	if f[0] != "ok" {
-		core.Fatalf("C16 hop: response model rejects the generated response: %s", ans)
-	}
-	model := map[string][]string{}
-	for _, ent := range core.SplitList2(f[7]) {
-		atoms := core.SplitList(ent)
-		vs := []string{}
-		for _, a := range atoms[1:] {
-			vs = append(vs, string(core.MustUnHex(a)))
+	respModel := func(rules []string) map[string][]string {
+		ans := ctx.Model.MustAsk("RESP", "process", "method="+core.HexS("GET"), "reqminor=1", "reqclose=0", "gzip=0",
+			"rules="+core.HexList(rules), "minor=1", "status=200", "reason="+core.HexS("OK"), "fields="+core.JoinList2(fs))
+		f := strings.Fields(ans)
+		if f[0] != "ok" {
+			core.Fatalf("C16 hop: response model rejects the generated response: %s", ans)
 		}
-		model[string(core.MustUnHex(atoms[0]))] = vs
+		model := map[string][]string{}
+		for _, ent := range core.SplitList2(f[7]) {
+			atoms := core.SplitList(ent)
+			vs := []string{}
+			for _, a := range atoms[1:] {
+				vs = append(vs, string(core.MustUnHex(a)))
+			}
+			model[string(core.MustUnHex(atoms[0]))] = vs
+		}
+		return model
 	}
+	model := respModel(hc.RespRules)
 	in := fieldMapOf(hc.Fields)
 	chunked := len(in["transfer-encoding"]) > 0
 	j := &judge{ctx: ctx, hc: hc, rules: rules, names: lowerNames(responseNames), got: res, model: model, impl: impl}
+	if hc.Whole {
+		j.base = respModel(nil)
+	}
 	j.pre = func(k string) []string {
 		switch {
 		case k == "transfer-encoding":
@@ -552,6 +610,13 @@ func hopConnect(ctx *core.Ctx, e *hopEnv, hc *hopCase, rules header.Headers) {
 	nominated := connTokens(in["connection"])
 	j := &judge{ctx: ctx, hc: hc, rules: rules, names: lowerNames(connectNames), got: ex.Req, model: out.Actions[0].Sent[0].Fields, impl: impl,
 		fixed: map[string][]string{"host": {hopOrigin + ":443"}}}
+	if hc.Whole {
+		bare := cfg
+		bare.ConnectRules = nil
+		if b := reqmodel.AskConnect(ctx.Model, &bare, nil, &mctx, cr); b.Kind == "tunnel" && len(b.Actions) == 1 && len(b.Actions[0].Sent) == 1 {
+			j.base = b.Actions[0].Sent[0].Fields
+		}
+	}
 	j.pre = func(k string) []string {
 		switch {
 		case hopStatic[k] || nominated[k], k == "host":
